@@ -313,7 +313,10 @@ def _kv_clean(s):
     return s.strip()
 
 
-_uni = st.text(max_size=24)
+_uni_plain = st.text(max_size=24)
+_uni = st.one_of(st.text(max_size=24), st.text(max_size=24),
+                 # any Python string, including lone surrogates (what a surrogateescape-decoded command line argument holds)
+                 st.text(alphabet=st.characters(exclude_categories=()), max_size=12))
 _ascii_txt = st.text(alphabet="abcdefghijklmnopqrstuvwxyzABCDEFGHIJKLMNOPQRSTUVWXYZ0123456789 ._-+/=:@!\"'\\{}[],", max_size=24)
 _digits = st.text(alphabet="0123456789", min_size=1, max_size=15)
 
@@ -324,8 +327,9 @@ def fields_strategy(fmt):
         code = st.one_of(_digits, st.integers(0, 999), _uni)
         phone = st.one_of(_digits, st.integers(1, 10 ** 15))
     else:
-        text = st.one_of(_uni, _ascii_txt).map(_kv_clean)
-        code = st.one_of(_digits, _uni.map(_kv_clean))
+        # (a key=value file is plain text: it has no way to write a lone surrogate, so those stay with the JSON format)
+        text = st.one_of(_uni_plain, _ascii_txt).map(_kv_clean)
+        code = st.one_of(_digits, _uni_plain.map(_kv_clean))
         phone = _digits
     binv = st.binary(min_size=0, max_size=64).map(lambda b: b.hex())
     spec = {"phone": phone}
